@@ -1,3 +1,4 @@
+import Heathcliff.Proofs.C14S
 /-
   C14  Serialization round-trips every object exactly, sizes exact, across contexts.
 
@@ -126,5 +127,115 @@ example : u64Limit 255 = 1 ∧ u64Limit 256 = 2 ∧ u64Limit 65537 = 3 ∧ u64Li
   refine ⟨?_, ?_, ?_, ?_, ?_⟩ <;> decide
 example : plainC.dec (plainC.enc ⟨[1, 2, 3, 4], [7, 8], 4607182418800017408⟩ ++ [9, 9])
     = .ok (⟨[1, 2, 3, 4], [7, 8], 4607182418800017408⟩, [9, 9]) := by rfl
+
+
+/-! ### closed-form sizes for every modelled type (= the Rust size functions), selected-terms mask identity and idempotence, the byte-width rule (q < 256^w, tight unless q is a power of 256), stream framing as a monoid law, refusals
+    (statements, bundles, concrete instances and three refuted statements with witnesses: Heathcliff/Proofs/C14S.lean) -/
+
+/-- scalars: `u64`/`usize`/`f64`/`Modulus` 8 bytes, `u8`/`bool`/`SchemeType` 1 byte, `ParmsID` 32 bytes -/
+theorem len_scalars : type_of% @HC.Codec.c14s_len_scalars := @HC.Codec.c14s_len_scalars
+
+/-- a residue written with width `w` takes `w` bytes (whatever its value) -/
+theorem len_residue : type_of% @HC.Codec.c14s_len_residue := @HC.Codec.c14s_len_residue
+
+/-- `Vec<I>` and the 1-d containers: 8 + the item sizes -/
+theorem len_vec : type_of% @HC.Codec.c14s_len_vec := @HC.Codec.c14s_len_vec
+
+/-- `EncryptionParameters`: 1 + 8 + (8 + 8k) + [8 if BFV/BGV] + 1 -/
+theorem len_params : type_of% @HC.Codec.c14s_len_params := @HC.Codec.c14s_len_params
+
+/-- `Plaintext` / `SecretKey`: 32 + (8 + 8·|data|) + 8 -/
+theorem len_plain : type_of% @HC.Codec.c14s_len_plain := @HC.Codec.c14s_len_plain
+
+/-- one polynomial in the compact format: `N · Σ_j limit(q_j)` -/
+theorem len_poly : type_of% @HC.Codec.c14s_len_poly := @HC.Codec.c14s_len_poly
+
+/-- `Ciphertext` / `PublicKey`, compact format, fully explicit:
+    32 (parms id) + 8 (size) + 1 (NTT flag) + [8 scale/correction factor if CKKS/BGV] + 1 (seed flag)
+    + (1 if seeded else size) · N · Σ_j limit(q_j) + [64 seed bytes if seeded] -/
+theorem len_ct : type_of% @HC.Codec.c14s_len_ct := @HC.Codec.c14s_len_ct
+
+/-- … and this is the Rust `Ciphertext::serialized_size` -/
+theorem len_ct_rust : type_of% @HC.Codec.c14s_len_ct_rust := @HC.Codec.c14s_len_ct_rust
+
+/-- selected-terms format: header + 1 + |T|·Σ limit for polynomial 0 + (size−1)·N·Σ limit for the others
+    (seeded: |T|·Σ limit + 64) -/
+theorem len_ct_terms : type_of% @HC.Codec.c14s_len_ct_terms := @HC.Codec.c14s_len_ct_terms
+
+/-- … which is the Rust `serialized_terms_size` except at `size = 0` unseeded (see `c14s_TermsSizeStatement_false`) -/
+theorem len_ct_terms_rust : type_of% @HC.Codec.c14s_len_ct_terms_rust := @HC.Codec.c14s_len_ct_terms_rust
+
+/-- full format: header + 8 (word count) + 8 per word sent -/
+theorem len_ct_full : type_of% @HC.Codec.c14s_len_ct_full := @HC.Codec.c14s_len_ct_full
+
+/-- key sets: 32 + 8 + 8 per entry (present or missing) + `s` per key, all keys of size `s` -/
+theorem len_kswitch : type_of% @HC.Codec.c14s_len_kswitch := @HC.Codec.c14s_len_kswitch
+
+/-- containers of dimensions `d1`, `d1 × d2`, `d1 × d2 × d3` with items of size `s` -/
+theorem len_c1d : type_of% @HC.Codec.c14s_len_c1d := @HC.Codec.c14s_len_c1d
+
+theorem len_c2d : type_of% @HC.Codec.c14s_len_c2d := @HC.Codec.c14s_len_c2d
+
+theorem len_c3d : type_of% @HC.Codec.c14s_len_c3d := @HC.Codec.c14s_len_c3d
+
+/-- rns_plain objects: the component sizes added up -/
+theorem len_rnsp : type_of% @HC.Codec.c14s_len_rnsp := @HC.Codec.c14s_len_rnsp
+
+/-- `PolynomialSerializer` -/
+theorem len_polySer : type_of% @HC.Codec.c14s_len_polySer := @HC.Codec.c14s_len_polySer
+
+/-- monotonicity facts (see also `c14s_terms_le_compact`, `c14s_terms_mono`, `c14s_seeded_saving`,
+    `c14s_full_seeded_lt_iff`): compact < full for `u64` moduli; seeded < expanded iff a polynomial exceeds 64 bytes -/
+theorem size_monotonicity : type_of% @HC.Codec.c14s_size_monotonicity := @HC.Codec.c14s_size_monotonicity
+
+/-- `decodeTerms (encodeTerms ct T ++ rest) = (maskTerms ct T, rest)`; `maskTerms` idempotent; `T ⊇ [0, N)` ⇒ identity -/
+theorem terms_format : type_of% @HC.Codec.c14s_terms_format := @HC.Codec.c14s_terms_format
+
+/-- `T ⊇ [0, N)`: the terms format restores what the compact format restores; on an unseeded API-built
+    object that is the object itself -/
+theorem terms_all : type_of% @HC.Codec.c14s_terms_all := @HC.Codec.c14s_terms_all
+
+/-- the two statements Props/C14 left open, verbatim -/
+theorem TermsMaskStatement_proof : type_of% @HC.Codec.c14s_TermsMaskStatement_proof := @HC.Codec.c14s_TermsMaskStatement_proof
+
+theorem SizeClosedFormStatement_proof : type_of% @HC.Codec.c14s_SizeClosedFormStatement_proof := @HC.Codec.c14s_SizeClosedFormStatement_proof
+
+/-- for every admissible modulus `2 ≤ q < 2^61`: `get_u64_limit q` is the least `w` with `q < 256^w`, lies in
+    `[1, 8]`, every residue round-trips with it, and — unless `q` is a power of 256 — a width is lossless for
+    the largest residue `q − 1` iff it is at least `get_u64_limit q` -/
+theorem width_rule : type_of% @HC.Codec.c14s_width_rule := @HC.Codec.c14s_width_rule
+
+theorem framing_monoid : type_of% @HC.Codec.c14s_framing_monoid := @HC.Codec.c14s_framing_monoid
+
+/-- the writer's `assert_eq!(value, 0)`: a value that does not fit the width is outside the writer's domain -/
+theorem limC_refuses : type_of% @HC.Codec.c14s_limC_refuses := @HC.Codec.c14s_limC_refuses
+
+/-- any strict prefix of any valid encoding is refused with `UnexpectedEof` (every lawful format) -/
+theorem truncated_eof : type_of% @HC.Codec.c14s_truncated_eof := @HC.Codec.c14s_truncated_eof
+
+theorem guard_pid_dec_bad : type_of% @HC.Codec.c14s_guard_pid_dec_bad := @HC.Codec.c14s_guard_pid_dec_bad
+
+/-- a parms id unknown to the context is refused by every ciphertext reader (compact, terms, full)
+    right after the 32 id bytes, whatever follows -/
+theorem unknown_pid_refused : type_of% @HC.Codec.c14s_unknown_pid_refused := @HC.Codec.c14s_unknown_pid_refused
+
+/-- a scheme byte above 3 is refused (`SchemeType::from` panics) -/
+theorem scheme_refused : type_of% @HC.Codec.c14s_scheme_refused := @HC.Codec.c14s_scheme_refused
+
+/-- S1 for a key set of expanded public keys at one level: every present key costs the compact size of a
+    size-2 ciphertext -/
+theorem kswitch_ct_size : type_of% @HC.Codec.c14s_kswitch_ct_size := @HC.Codec.c14s_kswitch_ct_size
+
+/-- for the transforms the driver uses (C09 `ntt` / `intt` on tables belonging to the level) and an NTT- or
+    coefficient-form ciphertext whose polynomial 0 has reduced components of length `N`: masking is idempotent,
+    and selecting all terms restores what the compact format restores -/
+theorem terms_format_ntt : type_of% @HC.Codec.c14s_terms_format_ntt := @HC.Codec.c14s_terms_format_ntt
+
+theorem getD_lt_of_all : type_of% @HC.Codec.c14s_getD_lt_of_all := @HC.Codec.c14s_getD_lt_of_all
+
+theorem exCtNtt_hp0 : type_of% @HC.Codec.c14s_exCtNtt_hp0 := @HC.Codec.c14s_exCtNtt_hp0
+
+/-- the hypotheses of `c14s_terms_format_ntt` hold on a concrete NTT-form seeded ciphertext with tables built by `NTTTables.new` -/
+theorem ex_ntt_instance : type_of% @HC.Codec.c14s_ex_ntt_instance := @HC.Codec.c14s_ex_ntt_instance
 
 end HC.C14
